@@ -30,6 +30,10 @@ void vs_policy_random(uint64_t seed);                  /* uniform among enabled 
 void vs_policy_pct(uint64_t seed, int depth);          /* PCT-style priorities with `depth` change points */
 void vs_policy_replay(const char *schedule);           /* "0 1 1! 2~ ..." */
 void vs_policy_prefix(const char *schedule);           /* replay the prefix, then run non-preemptively (lowest tid first) */
+void vs_policy_opseq(const char *ops);                 /* tokens are thread ids: run that thread for one whole operation
+                                                          (up to its next vs_op_done); afterwards as vs_policy_prefix.
+                                                          vs_print adds "#opseq-steps <steps the sequence took>" */
+void vs_op_done(void);                                 /* the calling thread finished one operation of its program (no scheduling point) */
 void vs_trace_enabled(int on);                         /* vs_print adds "#enabled <hex mask per step>" (systematic exploration) */
 void vs_set_spurious(int cas_permille, int cv_permille);/* probability of spurious weak-CAS failure / condvar wake-up */
 void vs_set_spurious_futex(int permille);             /* a parked futex wait may return -1/EINTR without a wake-up
